@@ -2,10 +2,29 @@ from vdriver import U
 
 PROPERTY = {
     "level": "proof",
-    "explanation": "",
-    "trusted_base": ["cbmc 6.11.0 (IEEE-754 bit-precise float encoding, round-to-nearest) + cvc5 for the floating-point units", "a_real = double, LP64"],
-    "assumptions": [],
-    "not_applicable_clauses": [],
+    "explanation": "Hoare triples over IEEE doubles on the real code. [P, all doubles] a_trajpoly3/5/7_gen store c[0] = p0, c[1] = v0, c[2] = a0/2 for every argument; "
+                   "pos/vel/acc/jer at x = 0 return c[0], c[1], 2 c[2], 6 c[3] for every context whose coefficients have magnitude <= 2^1000, and, end to end after gen, "
+                   "the requested initial position/velocity/acceleration exactly (jerk: on the exact domain); pos/vel/acc/jer(x) are for every context and every x the "
+                   "a_poly_eval_ value of exactly the vectors delivered by the c0/c1/c2/c3 accessors; c0 is a bit-exact copy. "
+                   "[B, exact domain] the accessor vectors are the successive derivative coefficient vectors (k+1)c[k+1], (k+1)(k+2)c[k+2], (k+1)(k+2)(k+3)c[k+3]; "
+                   "end-time boundary conditions for ts in {1,2,4} and small integer data as a guard on the closed-form constants. "
+                   "[B, <= 9 coefficients] a_poly_eval_/a_poly_evar_ (and the length forms, incl. n = 0) equal the Horner value written from the header's recurrence, "
+                   "eval(a) == evar(swap a) and evar(a) == eval(swap a) with the library's own a_poly_swap; [B, n <= 16] a_poly_swap/a_poly_swap_ reverse bit-exactly "
+                   "(element i <-> n-1-i), are involutions and touch nothing outside the exactly sized array; a_poly_swap's guard/call protocol for every n.",
+    "trusted_base": ["cbmc 6.11.0 (IEEE-754 bit-precise float encoding, round-to-nearest); cvc5 back end for the floating-point units, MiniSat for the memory/enumeration units",
+                     "a_real = double, LP64 little endian", "memcpy model of cbmc (a_copy in the c0 accessors)"],
+    "assumptions": [
+        "end-time boundary conditions 'to within rounding error proportional to the size of the boundary data' for all durations and data: NOT APPLICABLE (needs an error analysis over real arithmetic). Decided instead on the exact domain ts in {1,2,4}, integer data |x| <= 4 (cubic) / <= 1 (quintic, septic; jerks 3x; |x| <= 2 quintic and ts = 1, 4 septic in the thorough tier), where every intermediate is exact (checked natively on 3e6 samples) and the end-time values equal the requested ones exactly: bounded-domain units, a guard on the closed-form constants only",
+        "'derivative vectors are the exact successive derivatives' is decided on the exact domain (coefficients m/16, |m| <= 2^12); for arbitrary doubles c*6*5, c*7*6, c*5*4*3, c*6*5*4, c*7*6*5 differ from the single product by an ulp, which the property's 'exact' cannot mean. That vel/acc/jer evaluate exactly the accessor vectors is proved for all doubles.",
+        "time-zero clauses need coefficients of magnitude <= 2^1000 (hypothesis on the generator's OUTPUT): Horner at x = 0 multiplies every partial value by 0 and inf * 0 = NaN, so when the closed forms overflow (e.g. cubic, ts = 1e-120, p 0 -> 1) pos(0) is NaN although all inputs are finite; also the initial acceleration must not be an odd subnormal (a0 * 0.5 * 2 == a0)",
+        "initial jerk: c[3] = j0 * (1.0/6) with the ROUNDED constant, so c[3] == j0/6 and jer(0) == j0 only hold on the exact domain j0 = 3k/64; for general j0 the library is off by an ulp (j0 = 7: jer(0) = 6.9999999999999991), contradicting 'exactly at time zero' (reported as a finding, not encoded as an obligation)",
+        "polynomial evaluation is decided for at most 9 coefficients (degree <= 8); the Horner value is written with the operand order of the header's recurrence S*x + a (IEEE multiplication is commutative, so this is no restriction on the value)",
+        "order reversal of a_poly_swap_ is decided for n <= 16 only (every length on its own exactly sized array). An unbounded proof under a DFCC loop contract was attempted: invariant base and step are discharged, the post-loop obligation is not (the contract havocs the moving pointers and every dereference then splits over all objects: no answer in 250 s / 17 GB). poly_swap_n (guard n > 1, call protocol, all n <= 2^40) replaces a_poly_swap_ by that reversal contract and is therefore labelled B; in it elements are compared as values (witness elements not NaN); NaN payloads are covered bit-exactly in poly_swap_small",
+        "ghost witness index stands for a universal quantifier in poly_swap_n",
+    ],
+    "not_applicable_clauses": ["final values at the end time to within rounding error proportional to the size of the boundary data (general durations/data)",
+                               "all polynomial degrees (decided: <= 8 for evaluation, <= 15 for reversal)"],
+    "parameters_concretised": ["number of coefficients 1..9 (evaluation), 0..16 (reversal)", "ts in {1,2,4} for the end-time identities"],
 }
 RP = {"native": True, "sources": ["a.c"]}
 DEG = "polynomials of at most 9 coefficients (degree <= 8), every length 1..9 on an exactly sized array, loops unwound completely"
@@ -14,8 +33,8 @@ UNITS = [
       timeout=300, replay=RP, min_obl=19, key=["eval_: equals the Horner value"]),
     U("poly_evar", "poly.c", "h_poly_evar", functions=["a_poly_evar_", "a_poly_evar"], level="B", bound=DEG, solver="cvc5", split=4, unwind=11,
       timeout=300, replay=RP, min_obl=19, key=["evar_: equals the Horner value"]),
-    U("poly_both", "poly.c", "h_poly_both", functions=["a_poly_eval", "a_poly_evar", "a_poly_swap"], level="B", bound=DEG, solver="cvc5", split=4, unwind=11,
-      timeout=300, replay=RP, min_obl=18, key=["eval\\(a\\) == evar\\(swap a\\)"]),
+    U("poly_both", "poly.c", "h_poly_both", functions=["a_poly_eval", "a_poly_evar", "a_poly_swap"], level="B", bound=DEG, solver="cvc5", split=8, unwind=11,
+      timeout=300, replay=RP, min_obl=18, key=["eval\\(a\\) == evar\\(swap a\\)"], cost=100),
     U("poly_swap_small", "poly.c", "h_poly_swap_small", functions=["a_poly_swap", "a_poly_swap_"], level="B", bound="vectors of 0..16 elements, every length on an exactly sized array, loops unwound completely",
       unwind=18, timeout=300, replay=RP, min_obl=20, key=["becomes the former element", "reversing twice"]),
     U("poly_swap_n", "poly.c", "h_poly_swap_n", functions=["a_poly_swap"], replace=["a_poly_swap_/contract_a_poly_swap_"], timeout=300, replay=RP,
@@ -37,7 +56,15 @@ for n in (3, 5, 7):
         T("trajpoly%d_deriv" % n, [P + "c1", P + "c2"], level="B", bound="exact domain: coefficients m/16, |m| <= 2^12", key=["first derivative"], min_obl=2),
     ]
 UNITS.append(T("tp7_gen_jerk", ["a_trajpoly7_gen"], level="B", bound="exact domain: j0 = 3k/64, |k| <= 2^12 (all other arguments arbitrary)", key=["sixth of the initial jerk"], min_obl=2))
-for n in (3, 5, 7):
-    for ts in (1, 2, 4):
-        UNITS.append(T("tp%d_final_ts%d" % (n, ts), ["a_trajpoly%d_gen" % n, "a_trajpoly%d_pos" % n, "a_trajpoly%d_vel" % n, "a_trajpoly%d_acc" % n], entry="h_tp%d_final" % n,
-                       level="B", bound="exact domain: ts = %d, integer boundary data |x| <= 4 (jerks 3x)" % ts, defines=["TS=%d" % ts, "DM=4"], key=["at the end time"], min_obl=2))
+# end-time identities: the back end has to enumerate the exact domain (SAT, ~7 ms per combination), so the domain is
+# 9^4 (cubic), 3^6 (quintic; 5^6 in the thorough tier), 3^8 (septic; ts = 1 and 4 in the thorough tier)
+def FIN(n, ts, dm, **kw):
+    return T("tp%d_final_ts%d%s" % (n, ts, kw.pop("tag", "")), ["a_trajpoly%d_gen" % n, "a_trajpoly%d_pos" % n, "a_trajpoly%d_vel" % n, "a_trajpoly%d_acc" % n] + (["a_trajpoly7_jer"] if n == 7 else []),
+             entry="h_tp%d_final" % n, level="B", solver=None, split=(8 if n == 7 else 4),
+             bound="exact domain: ts = %d, integer boundary data |x| <= %d%s" % (ts, dm, " (jerks 3x)" if n == 7 else ""),
+             defines=["TS=%d" % ts, "DM=%d" % dm], key=["at the end time"], min_obl=2, **kw)
+for ts in (1, 2, 4):
+    UNITS.append(FIN(3, ts, 4, timeout=300))
+    UNITS.append(FIN(5, ts, 1, timeout=300))
+    UNITS.append(FIN(5, ts, 2, timeout=1800, tiers=("thorough",), tag="_wide"))
+    UNITS.append(FIN(7, ts, 1, timeout=900, cost=200, **({} if ts == 2 else {"tiers": ("thorough",)})))
